@@ -36,6 +36,8 @@ class Ob:
     entries: list | None = None  # restrict to these (i, j)
     tol: float = 1e-6  # numeric replay tolerance
     note: str = ""
+    var: str | None = None  # kind == "taylor": ring variable name; lhs - rhs = O(var^(order+1))
+    order: int = 0
 
 
 @dataclass
@@ -111,7 +113,7 @@ def source_hash(fn):
 class Trace:
     def __init__(self, id, inputs, build, obligations, functions=(), decide=None, lemmas=(), max_paths=64,
                  budget_s=120, post_bind=None, note="", sample_filter=None, expect_paths=None, requires_nonzero=None,
-                 requires_smt=None, definedness=True, smt_timeout=10):
+                 requires_smt=None, definedness=True, smt_timeout=10, numeric=None):
         self.id = id
         self.inputs = inputs
         self.build = build
@@ -128,6 +130,9 @@ class Trace:
         self.requires_smt = requires_smt  # callable(rs: RingSMT, sorts) -> list of z3 constraints (extra requires for SMT queries)
         self.definedness = definedness
         self.smt_timeout = smt_timeout
+        # companion trace WITHOUT stubs (same obligation ids, stated on the real function's outputs): used for
+        # counterexample search and replay when this trace replaces callees by their contracts
+        self.numeric = numeric
 
     # ------------------------------------------------------------------
     def sx_inputs(self):
@@ -200,6 +205,7 @@ class Trace:
             R = Ring()
             R.deadline = deadline
             low = Lowerer(g, R, {}, decisions, self.decide)
+            low.onodes = onodes
             for s in self.inputs:
                 low.env.update(s.bind(low))
             if self.post_bind:
@@ -251,7 +257,7 @@ class Trace:
                     r.witness = self._find_witness(g, onodes, fn, outs, ob, trace, rng)
                     if r.witness is None:
                         # is the path feasible at all?  (sampled; dead paths are discarded)
-                        if not self._path_reachable(g, trace, rng):
+                        if self.numeric is None and not self._path_reachable(g, trace, rng):
                             r.status = UNDECIDED
                             r.detail = "normal forms differ on a path that no sample of 4000 reaches (dead path? declare it in the cell policy or prove infeasibility): " + detail
                 results.append(r)
@@ -366,9 +372,34 @@ class Trace:
             return REFUTED, f"{solver} model violates {ob.kind}: " + str(model)[:300], cnt
         return UNDECIDED, f"SMT {solver}: unknown after {secs:.1f}s", cnt
 
+    def _check_taylor(self, low, onodes, ob):
+        R = low.R
+        L, Rm = onodes[ob.lhs], onodes[ob.rhs]
+        vi = R.index.get(ob.var)
+        cnt = 0
+        from .ring import BITS, MASK
+        for (i, j) in self._entries(onodes, ob):
+            d = low.value(L[i][j]) - low.value(Rm[i][j])
+            cnt += 1
+            if vi is None:
+                if not d.num.is_zero():
+                    return REFUTED, f"difference nonzero and variable {ob.var} absent", cnt
+                continue
+            for f in d.den:
+                if vi in f.vars():
+                    return UNDECIDED, f"denominator depends on {ob.var}", cnt
+            low_terms = {m: c for m, c in d.num.t.items() if ((m >> (BITS * vi)) & MASK) <= ob.order}
+            if low_terms:
+                k = min(((m >> (BITS * vi)) & MASK) for m in low_terms)
+                from .ring import Poly
+                return REFUTED, f"entry ({i},{j}): coefficient of {ob.var}^{k} in lhs-rhs is nonzero: {R.show(Poly(R, {m: c for m, c in low_terms.items() if ((m >> (BITS * vi)) & MASK) == k}), 5)}", cnt
+        return PROVED, f"{cnt} entries: lhs - rhs = O({ob.var}^{ob.order + 1}) (all lower Taylor coefficients vanish identically)", cnt
+
     def _check_ob(self, low, onodes, outs, ob):
         if ob.kind in ("le", "lt", "ge", "gt", "ne"):
             return self._check_ineq(low, onodes, ob)
+        if ob.kind == "taylor":
+            return self._check_taylor(low, onodes, ob)
         L = onodes[ob.lhs]
         Rm = onodes[ob.rhs] if ob.rhs is not None else None
         if Rm is not None and (len(L) != len(Rm) or len(L[0]) != len(Rm[0])):
@@ -398,7 +429,7 @@ class Trace:
                 for i in range(s.shape[0]):
                     for j in range(s.shape[1]):
                         env[(s.name, i, j)] = v[i][j]
-            res = fn(*[ca.DM(vals[s.name]) for s in self.inputs])
+            res = fn(*[s.dm(vals[s.name]) for s in self.inputs])
             if not isinstance(res, (list, tuple)):
                 res = [res]
             names = list(onodes)
@@ -416,7 +447,7 @@ class Trace:
                             raise EngineError(f"IR/Function mismatch on {k}[{i},{j}]: {a} vs {b}")
 
     def numeric_outputs(self, fn, vals):
-        res = fn(*[ca.DM(vals[s.name]) for s in self.inputs])
+        res = fn(*[s.dm(vals[s.name]) for s in self.inputs])
         if not isinstance(res, (list, tuple)):
             res = [res]
         return {k[2:]: ca.DM(v).full() for k, v in zip(fn.name_out(), res)}
@@ -461,11 +492,25 @@ class Trace:
                 return True
         return False
 
+    def witness_for(self, ob_id, rng, n=300):
+        ins, outs = self.call_build()
+        fn = ca.Function("num", list(ins.values()), [ca.SX(outs[k]) for k in outs], list(ins), ["o_" + k for k in outs])
+        obs = [o for o in self.obligations if o.id == ob_id] or self.obligations
+        onodes = {k: [[0] * ca.SX(outs[k]).shape[1] for _ in range(ca.SX(outs[k]).shape[0])] for k in outs}
+        for ob in obs:
+            w = self._find_witness(None, onodes, fn, outs, ob, [], rng, n)
+            if w is not None:
+                w["numeric_obligation"] = ob.id
+                return w
+        return None
+
     def _find_witness(self, g, onodes, fn, outs, ob, trace, rng, n=400):
+        if self.numeric is not None:
+            return self.numeric.witness_for(ob.id, rng)
         best = None
         for _ in range(n):
             vals = self.sample(rng)
-            if not self._path_ok(g, trace, self._env_of(vals)):
+            if g is not None and not self._path_ok(g, trace, self._env_of(vals)):
                 continue
             num = self.numeric_outputs(fn, vals)
             A = num[ob.lhs]
@@ -498,6 +543,8 @@ class Trace:
     # ------------------------------------------------------------------
     def replay(self, witness, tol=None):
         """re-evaluate on the working tree; returns (still_failing: bool, description)"""
+        if self.numeric is not None:
+            return self.numeric.replay(witness, tol)
         try:
             ins, outs = self.call_build()
         except Exception as e:
@@ -507,7 +554,7 @@ class Trace:
         msgs = []
         failing = False
         for ob in self.obligations:
-            if ob.kind not in ("eq", "le", "lt", "ge", "gt"):
+            if ob.kind not in ("eq", "le", "lt", "ge", "gt", "taylor"):
                 continue
             A = num[ob.lhs]
             B = num[ob.rhs] if ob.rhs is not None else None
